@@ -47,6 +47,25 @@ def marginalLoss (d : Dom) (cliques : List Clique) (meas : List (Meas α)) (mu :
       (loss, lg.2.iadd gf)) (acc.1, Factor.zeros f.dom)
     (loss, acc.2 ++ [(cl, g)])) (Scalar.zero, [])
 
+/-- `abs(x)` and `np.sign(x)` through the comparison of the interface (`nan` is not modelled here) -/
+def absS (x : α) : α := if Scalar.gt0 x then x else Scalar.neg x
+def signS (x : α) : α := if Scalar.gt0 x then Scalar.one else if Scalar.gt0 (Scalar.neg x) then Scalar.neg Scalar.one else Scalar.zero
+
+/-- `_marginal_loss` with `metric='L1'`: `loss += abs(diff).sum()`, `grad = c * Q.T @ sign(diff)` -/
+def marginalLossL1 (d : Dom) (cliques : List Clique) (meas : List (Meas α)) (mu : CliqueVec α) : α × CliqueVec α :=
+  mu.foldl (fun (acc : α × CliqueVec α) (e : Clique × Factor α) =>
+    let (cl, f) := e
+    let mine := meas.filter (fun m => groupOf d cliques m.proj == some cl)
+    let (loss, g) := mine.foldl (fun (lg : α × Factor α) m =>
+      let c := Scalar.div Scalar.one m.noise
+      let diff := residual m f
+      let loss := Scalar.add lg.1 (Scalar.sum (diff.map absS))
+      let mu2dom := f.dom.project m.proj
+      let grad := (matTVec m.Q mu2dom.size (diff.map signS)).map (fun v => Scalar.mul c v)
+      let gf : Factor α := Factor.mk' mu2dom ⟨mu2dom.shape, grad.toArray⟩
+      (loss, lg.2.iadd gf)) (acc.1, Factor.zeros f.dom)
+    (loss, acc.2 ++ [(cl, g)])) (Scalar.zero, [])
+
 /-- `_lipschitz` given, per measurement, the largest eigenvalue of `QᵀQ` (the `eigsh` contract) -/
 def lipschitz (d : Dom) (cliques : List Clique) (meas : List (Meas α)) (eigs : List α) : α :=
   let per := cliques.map (fun cl =>
